@@ -7,6 +7,14 @@
 use std::io::Write;
 
 fn main() {
+    // An ignored SIGCHLD is inherited across exec (`trap '' CHLD` in the
+    // invoking shell); the children would then be reaped by the kernel and
+    // waiting for a command would fail although it ran.
+    #[cfg(unix)]
+    unsafe {
+        uucore::libc::signal(uucore::libc::SIGCHLD, uucore::libc::SIG_DFL);
+    }
+
     // Ignores the SIGPIPE signal.
     // This is to solve the problem that when find is used with a pipe character,
     // the downstream software of the standard output stream closes the pipe and triggers a panic.
